@@ -1111,6 +1111,19 @@ def scenarios_delete():
         'A': delete_rp(E), 'B': put_invs(E, 'cur', INV3)}))
     out.append(('provider delete vs post inventory', {
         'A': delete_rp(E), 'B': post_inv(E, 'DISK_GB', 7)}))
+    # deletion of a class / trait racing a write that starts to use it
+    def _del(kind, n):
+        return lambda d: Req('DELETE', '/%s/%s' % (kind, n), '1.39')
+    out.append(('class delete vs inventories naming it', {
+        'A': _del('resource_classes', 'CUSTOM_UNUSED'),
+        'B': put_invs(E, 'cur', {'CUSTOM_UNUSED': {'total': 3},
+                                 'VCPU': {'total': 4}})}))
+    out.append(('class delete vs one more inventory of it', {
+        'A': _del('resource_classes', 'CUSTOM_UNUSED'),
+        'B': post_inv(E, 'CUSTOM_UNUSED', 3)}))
+    out.append(('trait delete vs provider traits naming it', {
+        'A': _del('traits', 'CUSTOM_UNUSED'),
+        'B': put_traits(E, 'cur', ['CUSTOM_UNUSED', 'CUSTOM_T1'])}))
     out.append(('delete vs rewrite vs claim', {
         'A': delete_alloc(K1),
         'B': put_alloc(K1, {E: {'VCPU': 2}}, 'cur'),
